@@ -43,6 +43,15 @@ Catalogue == <<
     << 3, 2, B(28, 0) \o << 1, 1, 0, 0, 0, 0, 0, 7 >> \o << 0, 1, 5, 0,  0, 1, 9 >> >>,      \* IF status, consistent (odd id count, padded)
     << 3, 2, B(28, 0) \o << 1, 1, 0, 0, 0, 0, 0, 7 >> \o << 0, 3, 5, 0,  0, 1, 9 >> >>,      \* stream ids beyond the payload
     << 3, 2, B(28, 0) \o << 1, 1, 0, 0, 0, 0, 0, 7 >> \o << 0, 0 >> >>,                       \* vendor length missing
+    << 1, 1, << 0, 0, 0, 0, 128 >> >>,                                \* CAN, 5 bytes: far shorter than its header
+    << 1, 3, << 0, 0, 0 >> >>,                                        \* LIN, 3 bytes
+    << 1, 8, << 0, 0 >> >>,                                           \* Ethernet, 2 bytes
+    << 1, 8, << 0, 0, 0, 0, 255, 255, 1, 2 >> >>,                     \* Ethernet, data length 65535
+    << 1, 8, << 0, 0, 0, 0, 255, 250, 1, 2 >> >>,                     \* Ethernet, data length 65530 (length + header wraps 16 bit)
+    << 1, 1, CanHdr(0, 0, 255) \o << 7, 8 >> >>,                      \* CAN, data length 255
+    << 1, 3, << 0, 0, 0, 0, 60, 0, 99, 255, 5 >> >>,                  \* LIN, data length 255
+    << 3, 2, B(20, 0) >>,                                             \* IF status, 20 bytes
+    << 3, 1, B(10, 0) >>,                                             \* CM status, 10 bytes
     << 3, 255, << 4, 5 >> >>,                                         \* vendor status
     << 2, 9, << 6 >> >>,                                              \* control
     << 255, 9, << 6, 7 >> >>                                          \* vendor defined
